@@ -1773,6 +1773,14 @@ class Engine:
         if isinstance(f, ast.Name) and f.id in st.env and isinstance(st.env[f.id], Func):
             return self.apply_func(st.env[f.id], [self.ev(a, st, spec) for a in e.args], st, spec, e)
         if name in self.c.calls and not spec:
+            callee = self.registry.get(self.c.calls[name])
+            if callee is not None and isinstance(e.func, ast.Attribute) and "self" in callee.params and not callee.static \
+                    and isinstance(e.func.value, ast.Name) and isinstance(st.env.get(e.func.value.id), Ref):
+                # `obj.method(...)` bound explicitly to one contract variant of the method: obj is the receiver
+                return self.call_contract(self.c.calls[name], e, st, recv=st.env[e.func.value.id])
+            if callee is not None and isinstance(e.func, ast.Attribute) and ast.unparse(e.func.value) == "super()" \
+                    and "self" in callee.params and isinstance(st.env.get("self"), Ref):
+                return self.call_contract(self.c.calls[name], e, st, recv=st.env["self"])
             return self.call_contract(self.c.calls[name], e, st)
         for m in self.MODELS:
             r = m(self, e, st, spec)
